@@ -448,10 +448,11 @@ impl StrExt for str {
         // - The glob `???*` is equivalent to the regex `.{3,}`
         let question_marks = self.matches('?').count();
 
+        // Wildcards match any character, including line breaks.
         if self.contains('*') {
-            format!(".{{{question_marks},}}")
+            format!("(?s:.){{{question_marks},}}")
         } else {
-            format!(".{{{question_marks}}}")
+            format!("(?s:.){{{question_marks}}}")
         }
     }
 }
